@@ -267,7 +267,7 @@ func c06Run(r *simkit.Run) {
 	r.Sched(simkit.SchedOpts{MaxSteps: 200000, Stick: r.DrawStick(), Invariant: observe})
 	r.Try(observe)
 
-	if r.Live() > 0 {
+	if r.Unfinished() {
 		r.Fail("liveness", "lastpoint", "setters did not finish")
 	}
 
